@@ -24,6 +24,7 @@ type SPRec struct {
 type ProvRec struct {
 	Kind       string
 	SD, Killed bool
+	HasData    bool // blobber: SavedData > 0
 }
 
 type Acct struct {
@@ -58,11 +59,11 @@ func ParseDump(s string) *DumpRec {
 	d := &DumpRec{Provs: map[int]ProvRec{}, SPs: map[string]SPRec{}, Accts: map[int]Acct{}}
 	for _, e := range splitList(s, "provs") {
 		f := strings.Split(e, ":")
-		if len(f) != 4 {
+		if len(f) != 5 {
 			continue
 		}
 		id, _ := strconv.Atoi(f[0])
-		d.Provs[id] = ProvRec{f[1], f[2] == "1", f[3] == "1"}
+		d.Provs[id] = ProvRec{f[1], f[2] == "1", f[3] == "1", f[4] == "h1"}
 	}
 	for _, e := range splitList(s, "sps") {
 		b := strings.Index(e, "{")
